@@ -75,6 +75,20 @@ CHECKS = {
   ],
   "not_decided": ["sequences longer than K events", "re-resolution after paste (see C07)"],
  },
+ "C07": {
+  "title": "MACRO / PASTE",
+  "harnesses": [
+   {"pkg": "core", "fn": "VerifH_PasteEqualsInline", "quick": {"K": 3, "MENU": 0}, "thorough": {"K": 4, "MENU": 0}, "stubsets": ["location"], "budget_violation": True, "depth_budget": 300},
+   {"pkg": "core", "fn": "VerifH_PasteEqualsInline", "quick": {"K": 5, "MENU": 1}, "thorough": {"K": 6, "MENU": 1}, "stubsets": ["location"], "budget_violation": True, "depth_budget": 300},
+  ],
+  "assumptions": [
+   "documents: 'JSIGHT 0.3' followed by K lines from a menu of directive templates (MACRO, PASTE, URL, GET, GET with path, 200, 404, TYPE, TAG, SERVER; small menu: MACRO, PASTE, GET with path, 200); names and path segments are symbolic bytes over {a,b}; only schema-free notations (any/empty), so the whole real pipeline runs from the document text",
+   "the catalog is compared through a structural rendering of every collection (not through encoding/json)",
+   "call-depth budget 300 as the bound for 'in bounded time'; exceeding it is replayed natively under a timeout / stack limit",
+   "jerr.NewLocation summarised",
+  ],
+  "not_decided": ["documents outside the template menus or longer than K lines", "macros whose bodies contain schema bodies (ENUM rules inside macros)"],
+ },
  "C08": {
   "title": "INCLUDE",
   "harnesses": [
